@@ -64,6 +64,7 @@ def dec_line(i, line):
 
 
 class FormatLines(Contract):
+    locals_order = ['lines', 'out_lines', 'i', 'line']
     target = MOD + ":format_multiline_lines"
     modular = False
     ensures = ("result == '\\n'.join(fmt_upto(lines, len(lines)))",)
